@@ -192,7 +192,8 @@ Proof. intros. lazy. reflexivity. Qed.
    distribution is compared with the implementation's on every run.  ParseElab.elab_circuit reads the same instruction list as a
    circuit in the vocabulary of C01_circuit (broadcast = one application per target group in order; `!q` = inverted result; an
    argument of an M-family instruction = flip probability; CX rec[-k] q = Pauli controlled by the record bit; MPP = the circuit of
-   C01_mpp_is_circuit; S[T] = T; I[R_Z(theta=..*pi)] = the rotation, any angle), and parse_is_circuit DECIDES that the lane
+   C01_mpp_is_circuit, with a noisy measurement of the auxiliary qubit for MPP(p); S[T] = T; I[R_Z(theta=..*pi)] = the rotation, any
+   angle; E / ELSE_CORRELATED_ERROR = chain elements numbered as finalize_correlated_error numbers them), and parse_is_circuit DECIDES that the lane
    program the parse model draws is the lane program of that circuit.  Whenever it says yes, the dense run of the parse model's
    program on |0...0> is, for every assignment of record / silent / error bits, the ordered product of the documented operators,
    times a bit-independent product of powers of sqrt 2 and a unit phase.  The harness evaluates the decision on every circuit of
